@@ -12,6 +12,7 @@ import (
 	"flag"
 	"fmt"
 	"os"
+	"runtime/pprof"
 	"time"
 
 	"verif/vk"
@@ -58,31 +59,33 @@ func main() {
 	states, trans, evals := 0, 0, 0
 
 	if *flagPart == "all" || *flagPart == "seq" {
-		type search struct {
-			cfg   string
-			depth int
-		}
-		var searches []search
+		var specs [][2]interface{}
 		if r.Quick() {
-			searches = []search{{"s2f2q2", 5}, {"s1f4q1", 5}, {"default", 5}}
+			specs = [][2]interface{}{{"s2f2q2", 5}, {"s1f4q1", 5}, {"default", 5}}
 		} else {
-			searches = []search{{"s2f2q2", 7}, {"s1f4q1", 7}, {"default", 7}, {"default-nocache", 6}, {"s3f2q1-utxo1", 6}}
+			specs = [][2]interface{}{{"s2f2q2", 6}, {"s1f4q1", 6}, {"default", 6}, {"default-nocache", 5}, {"s3f2q1-utxo1", 5}}
 		}
-		var per []interface{}
-		for _, s := range searches {
-			if *flagOnly != "" && *flagOnly != s.cfg {
-				continue
+		if *flagOnly != "" {
+			var keep [][2]interface{}
+			for _, sp := range specs {
+				if sp[0].(string) == *flagOnly {
+					keep = append(keep, sp)
+				}
 			}
-			t0 := time.Now()
-			st := runSeq(r, u, s.cfg, s.depth, 0, 25)
-			fmt.Printf("seq/%-16s depth %d: states=%d transitions=%d disabled=%d per_depth=%v order_variants=%d merge_checks=%d reaps=%d capped=%v %.1fs\n",
-				s.cfg, s.depth, st.States, st.Transitions, st.Disabled, st.PerDepth, st.OrderVariants, st.MergeChecks, st.Reaps, st.Capped, time.Since(t0).Seconds())
+			specs = keep
+		}
+		t0 := time.Now()
+		var per []interface{}
+		for _, st := range runSeq(r, u, specs, 25) {
+			fmt.Printf("seq/%-16s depth %d: states=%d transitions=%d disabled=%d per_depth=%v order_variants=%d merge_checks=%d reaps=%d capped=%v\n",
+				st.Name, st.Depth, st.States, st.Transitions, st.Disabled, st.PerDepth, st.OrderVariants, st.MergeChecks, st.Reaps, st.Capped)
 			fmt.Printf("    AddTx results: %v\n", st.AddResults)
 			states += st.States
 			trans += st.Transitions
 			evals += st.Transitions + st.Reaps
 			per = append(per, st)
 		}
+		fmt.Printf("seq: %.1fs\n", time.Since(t0).Seconds())
 		r.Set("seq_searches", per)
 	}
 	if *flagPart == "all" || *flagPart == "conc" {
@@ -161,6 +164,22 @@ func probe(r *vk.Run) {
 	t0 := time.Now()
 	u := buildUniverse(!r.Quick(), allCfgs)
 	defer u.close()
+	if os.Getenv("C15_BENCH") != "" {
+		defer pprof.StopCPUProfile()
+		ops := u.ops()
+		hists := [][]int{{0, 16, 14 * stepBase}, {5 * stepBase, 0, 13 * stepBase, 16}, {7 * stepBase, 5 * stepBase, 13 * stepBase, 0, 16}, {0, 16, 32, 13 * stepBase}}
+		n := 0
+		for rep := 0; rep < 40; rep++ {
+			for _, h := range hists {
+				for oi := range ops {
+					execHist(u, "s2f2q2", ops, append(append([]int{}, h...), oi*stepBase), "")
+					n++
+				}
+			}
+		}
+		fmt.Printf("bench: %d transitions in %v = %v each\n", n, time.Since(t0), time.Since(t0)/time.Duration(n))
+		return
+	}
 	fmt.Printf("universe: %d txs (%d in the AddTx alphabet), %v\n", len(u.txs), u.nAdd, time.Since(t0))
 	for _, t := range u.txs {
 		fmt.Printf("  %-4s %-14s sender=%d nonce=%d cost=%v kis=%d size=%d\n", t.Name, t.Class, t.Sender, t.Nonce, t.Cost, len(t.KIs), len(t.Raw))
